@@ -209,6 +209,8 @@ def make_sched(sj, top=False):
     return scalars.Constant(sj[1]) if top else sj[1]
   if h == 'step':
     return scalars.STEP
+  if h == 'stepwise':
+    return scalars.StepWise([(ph[0], make_sched(ph[1])) for ph in sj[1]])
   a, b = make_sched(sj[1]), make_sched(sj[2])
   if isinstance(a, int) and isinstance(b, int):
     a = scalars.Constant(a)
@@ -272,6 +274,14 @@ class ExprGen:
   def __init__(self, rng, npop, sloppy=False, oracle_only=False):
     self.rng, self.npop, self.sloppy, self.oo = rng, npop, sloppy, oracle_only
 
+  def sched01(self):
+    """A probability schedule with values 0 / 1."""
+    r = self.rng
+    if r.chance(0.5):
+      return ['sched', ['mod', ['step'], ['c', 2]]]
+    return ['sched', ['stepwise', [[r.randint(0, 4), ['c', r.below(2)]], [r.randint(1, 4), ['c', r.below(2)]],
+                                   [r.randint(0, 3), ['c', 1]]]]]
+
   def sched(self, nonneg=True):
     """A step-driven integer schedule (pg.evolution.scalars): STEP, constants, + - * // %."""
     r = self.rng
@@ -290,6 +300,10 @@ class ExprGen:
     if k == 5:
       return ['sched', ['floordiv', ['add', st, ['c', 1]], ['c', 2]]]
     if k == 6:
+      if r.chance(0.5):
+        # scalars.StepWise: phases of 0-4 steps, each a constant or a phase-local schedule
+        return ['sched', ['stepwise', [[r.randint(0, 4), r.choice([['c', r.randint(0, 3)], st, ['mod', st, ['c', 2]]])]
+                                       for _ in range(r.randint(1, 4))]]]
       return ['sched', ['mod', ['mul', st, ['c', 3]], ['c', 4]]]
     return ['sched', ['sub', ['c', r.randint(1, 3)], st]]            # may go negative
 
@@ -334,10 +348,10 @@ class ExprGen:
                     (3, 'recKPoint'), (2, 'recSegmented'), (2, 'recOrder'), (2, 'recPartiallyMapped'),
                     (2, 'recCycle'), (3, 'recAverage'), (2, 'recWeightedAverage')])
     if k in ('recOrder', 'recPartiallyMapped', 'recCycle'):
-      e = ['prim', k]
+      e = ['prim', k] + ([r.choice([0, 1, 2, 2, 3, 9])] if r.chance(0.3) else [])     # where.Any(k)
       return e if self.sloppy and r.chance(0.3) else ['seq', self.two_parents(fit), e]
     if k == 'recKPoint':
-      e = ['prim', k, r.randint(1, 3)]
+      e = ['prim', k, ['sched', ['add', ['mod', ['step'], ['c', 3]], ['c', 1]]] if r.chance(0.2) else r.randint(1, 3)]
       return e if self.sloppy and r.chance(0.3) else ['seq', self.two_parents(fit), e]
     if k == 'recSegmented':
       cuts = sorted(r.sample(list(range(0, 6)), r.randint(0, 3)))
@@ -409,7 +423,7 @@ class ExprGen:
       for _ in range(r.randint(1, 3)):
         a, fa = (self.expr(depth - 1, f) if f else self.expr_nofit(depth - 1))
         f = f and fa
-        items.append([a, norm_q([r.choice([0, 2, 4, 4, 6, 8]), 3])])
+        items.append([a, self.sched01() if r.chance(0.15) else norm_q([r.choice([0, 2, 4, 4, 6, 8]), 3])])
       return ['choice', items, r.choice([None, None, 1, 2])], f
     if k == 'cond':
       t, ft = self.expr(depth - 1, fit)
@@ -587,7 +601,9 @@ class C14(Prop):
           'hill_climb, nsga2 for 8-14 propose/feedback rounds with pass-through reproduction stages: no evaluated '
           'DNA object may change or be proposed again); permutation points of size 4-7 for Order / PartiallyMapped / '
           'Cycle; `where` filters of a closed family on Uniform / Swap; step-driven scalars (STEP, + - * // %) in '
-          'the integer parameters, each case run at a step 0-9. Non-trivial: the expression returns '
+          'the integer parameters, in `with_prob` and `KPoint.k`, incl. scalars.StepWise; `where.Any(k)`, k in 0-9, for '
+          'the permutation recombinators; each case run at a step 0-9, schedule cases also after a warm-up at the '
+          'earlier steps. Non-trivial: the expression returns '
           'normally, the population is non-empty and at least one primitive of the expression made a PRNG '
           'draw or produced a new DNA; distinct: by (spec, population, expression, seed).')
   trusted_base = [
@@ -628,6 +644,8 @@ class C14(Prop):
       spec = ['space', [perm] + ([gen_point(r, 0)] if r.chance(0.3) else []) + ([perm] if r.chance(0.2) else [])]
       pop = [{'nums': gen_dna(r, spec), 'fit': r.randint(-3, 6)} for _ in range(2)]
       prim = ['prim', r.choice(['recPartiallyMapped', 'recPartiallyMapped', 'recCycle', 'recOrder'])]
+      if r.chance(0.25):
+        prim = prim + [r.choice([0, 2, 3])]
       e = r.choice([prim, prim, ['repeat', prim, 2], ['seq', prim, ['seq', ['prim', 'selFirst', 2], prim]]])
       yield {'spec': spec, 'pop': pop, 'expr': e, 'seed': r.below(1 << 30), 'step': 0}
     # constrained multi-choices with many conflicting parents: the retry and last-resort paths of
@@ -782,7 +800,7 @@ class C14(Prop):
       if name == 'recSample':
         return recombinators.Sample(weights=weights, seed=seed())
       if name == 'recKPoint':
-        return recombinators.KPoint(e[2], seed=seed())
+        return recombinators.KPoint(nval(e[2]), seed=seed())
       if name == 'recSegmented':
         cuts = list(e[2])
         return recombinators.Segmented(lambda dps: list(cuts))
@@ -795,7 +813,7 @@ class C14(Prop):
         cls = {'recPartiallyMapped': recombinators.PartiallyMapped, 'recOrder': recombinators.Order,
                'recCycle': recombinators.Cycle}[name]
         from pyglove.ext.evolution import where
-        return cls(where=where.Any(), seed=seed())
+        return cls(where=where.Any(k=e[2]) if len(e) > 2 else where.Any(), seed=seed())
       if name == 'selProportional':
         ws = [unratio(q) for q in e[3]]
         return selectors.Proportional(nval(e[2]), weights=lambda xs: [ws[i % len(ws)] for i in range(len(xs))])
@@ -843,7 +861,8 @@ class C14(Prop):
     if h == 'power':
       return self.build_expr(e[1], ctx) ** nval(e[2])
     if h == 'choice':
-      items = [(self.build_expr(it[0], ctx), unratio(it[1])) for it in e[1]]
+      items = [(self.build_expr(it[0], ctx),
+                make_sched(it[1][1], top=True) if it[1][0] == 'sched' else unratio(it[1])) for it in e[1]]
       if len(items) == 1 and e[2] is None:
         return items[0][0].with_prob(items[0][1], seed=seed())
       return base.Choice(items, limit=e[2], seed=seed())
@@ -922,7 +941,7 @@ class C14(Prop):
     walk(dna)
     return nums, bel
 
-  def run_once(self, case, hook, gseed=1):
+  def run_once(self, case, hook, gseed=1, warmup=False):
     """Builds fresh objects and runs the expression once. Returns a dict of observations."""
     import pyglove as pg
     from pyglove.ext.evolution import base
@@ -1014,6 +1033,12 @@ class C14(Prop):
     _rec._merge_multi_choice = mm_spy             # pylint: disable=protected-access
     try:
       try:
+        if warmup:
+          for t in range(case.get('step', 0)):
+            try:
+              op(list(pop_arg), step=t)
+            except Exception:     # pylint: disable=broad-except
+              pass
         out = op(pop_arg, step=case.get('step', 0))
       except Exception as ex:     # pylint: disable=broad-except
         err = type(ex).__name__
@@ -1183,6 +1208,14 @@ class C14(Prop):
         sig = 'seeded-op-draws-from-global-random:' + '+'.join(sorted(set(run['unseeded'])))
       fail(sig, 'two runs with equal seeds and inputs (and different states of the global `random` module) '
                 'differ: %s vs %s' % (json.dumps(model)[:300], json.dumps(model2)[:300]))
+    # --- a scheduled hyper-parameter is a function of the step, not of the calls made before ---
+    if '"sched"' in json.dumps(case['expr']) and not run['log'] and case.get('step', 0) > 0:
+      run3 = self.run_once(case, hook=False, warmup=True)
+      model3 = self.canon_out(run3)
+      if model3 != model:
+        fail('schedule-depends-on-call-history',
+             'at step %d a fresh operator returns %s, the same operator after calls at steps 0..%d returns %s' % (
+                 case['step'], json.dumps(model)[:300], case['step'] - 1, json.dumps(model3)[:300]))
     has_oo = any(p not in MODEL_PRIMS for p in prims)
     return {'model': None if has_oo else model, 'obs': model, 'oracle': run['log'], 'checks': checks,
             'tainted': tainted, 'n_calls': len(run['calls']), 'n_draws': len(run['log']),
